@@ -168,6 +168,8 @@ class State:
         s.panic_msg = self.panic_msg
         s.last_ret = self.last_ret
         s.divs = list(self.divs)
+        if hasattr(self, "summary_vals"):
+            s.summary_vals = list(self.summary_vals)
         return s
 
     def frame(self, uid):
@@ -289,6 +291,8 @@ class Engine:
         self.static_vals = {}
         self.var_range = {}
         self.pending_lemmas = []
+        self.feas_timeout_s = 90
+        self.unknown_feas = 0
         self.div_cache = {}
         self.summaries = {}
         self.exclusions = []  # (fn-name suffix, predicate(eng, st, args) -> cond, finding id)
@@ -299,14 +303,19 @@ class Engine:
     def check(self, *extra):
         self.queries += 1
         t = time.time()
-        if extra:
-            self.solver.push()
-            for e in extra:
-                self.solver.add(Z(e))
-            r = self.solver.check()
-            self.solver.pop()
-        else:
-            r = self.solver.check()
+        try:
+            if extra:
+                self.solver.push()
+                for e in extra:
+                    self.solver.add(Z(e))
+                try:
+                    r = self.solver.check()
+                finally:
+                    self.solver.pop()
+            else:
+                r = self.solver.check()
+        except z3.Z3Exception:
+            r = z3.unknown
         self.solver_s += time.time() - t
         return r
 
@@ -318,8 +327,10 @@ class Engine:
             return False
         r = self.check(cond)
         if r == z3.unknown:
-            self.last_unknown = (self.solver.assertions(), cond)
-            raise TranslationError("solver returned unknown on a feasibility query: %s" % str(cond)[:300])
+            # undecided within the budget: keep the branch (over-approximation; an infeasible path can only make the
+            # final post-condition query unsat or inconclusive, never a pass that should not be one)
+            self.unknown_feas += 1
+            return True
         return r == z3.sat
 
     def new_int(self, ty, hint="v"):
@@ -1233,12 +1244,20 @@ class Engine:
         meth = callee.rsplit("::", 1)[-1]
         tm = re.match(r"^<(.*) as ([\w:]+)(?:<(.*)>)?>::(\w+)$", callee)
         cands = mir.by_method.get(meth, [])
+        if tm and tm.group(2).split("::")[-1] == "Into" and meth == "into" and tm.group(3):
+            # blanket `impl<T, U: From<T>> Into<U> for T`: forward to the crate's `From` impl
+            src, dst = tm.group(1), tm.group(3)
+            sel = [it for it in mir.by_method.get("from", []) if "<impl at" in it.name and len(it.params) == 1
+                   and norm_ty(it.params[0][1]) == norm_ty(src) and norm_ty(it.ret) == norm_ty(dst)]
+            if len({it.name for it in sel}) == 1:
+                return sel[0], None
         if tm:
             selfty, trait = tm.group(1), tm.group(2)
             if selfty.lstrip("&").strip() in INT_TYPES or selfty in ("bool", "f64", "f32"):
                 # primitive Self: only a crate-local impl whose parameter types match exactly may apply
                 # (e.g. `<i64 as Mul<Unit>>::mul`); conversions / comparisons go to the core models
-                if trait.split("::")[-1] in ("From", "Into", "TryFrom", "TryInto", "PartialOrd", "PartialEq", "Ord", "Clone"):
+                if trait.split("::")[-1] in ("From", "Into", "TryFrom", "TryInto", "PartialOrd", "PartialEq", "Ord", "Clone") \
+                        and (tm.group(3) is None or tm.group(3).strip() in INT_TYPES or tm.group(3).strip() in ("bool", "f64")):
                     return None, None
             if meth == "ne" and trait.endswith("PartialEq"):
                 cands = mir.by_method.get("eq", [])
